@@ -329,6 +329,12 @@ func (c *rawScn) step(st string) {
 			appFree(s, m)
 			return []interface{}{"r", "ok", "tag", tag, "hl", hl, "from", from, "hout", hout}
 		})
+	case "rq":
+		// ReadQLen changed (the scenarios do it when nothing is queued); sockets without the option are left alone
+		n, _ := strconv.Atoi(arg(1))
+		if err := c.sock.SetOption(mangos.OptionReadQLen, n); err == nil {
+			s.Rec.Emit("setrq", "n", n)
+		}
 	case "inj":
 		if p := c.pipes[arg(1)]; p != nil && !p.IsClosed() {
 			p.Inject(c.mkInject(arg(2)))
@@ -527,8 +533,19 @@ func rawDeadline(p rawProto) []rawCfg {
 		c2.Steps = []string{"send ok", "adv " + just, "adv 1us", "conn", "recv", "adv " + just, "inj p1 ok", "adv 1us", "send ok", "recv", "adv " + d.String()}
 		out = append(out, c2)
 	}
+	// the deadline of a Recv that is waiting is not pushed back by a queue length change
+	for _, d := range []time.Duration{time.Second, 300 * time.Second} {
+		rz := rawCfg{P: p, TTL: 8, SQ: 1, RQ: 2, RecvExp: d}
+		rz.Steps = []string{"conn", "recv", "adv " + (d / 2).String(), "rq 3", "adv " + (d - d/2 - us).String(), "adv 1us", "inj p1 ok", "recv", "adv " + d.String()}
+		out = append(out, rz)
+	}
 	be := rawCfg{P: p, TTL: 8, SQ: 1, RQ: 1, BestEffort: true, Steps: []string{"send ok", "send ok", "conngated", "send ok", "send ok", "send ok", "send ok", "adv 1s", "release p1", "send ok"}}
 	out = append(out, be)
+	// best effort together with a send deadline: best effort wins - nothing waits for the deadline
+	be2 := be
+	be2.SendExp = 2 * time.Second
+	be2.Steps = []string{"send ok", "send ok", "send ok", "conngated", "send ok", "send ok", "send ok", "send ok", "adv 1.999999s", "adv 1us", "release p1", "send ok", "adv 3s"}
+	out = append(out, be2)
 	fnp := rawCfg{P: p, TTL: 8, SQ: 1, RQ: 1, FailNoPeers: true, SendExp: 5 * time.Second,
 		Steps: []string{"send ok", "recv", "conngated", "send ok", "send ok", "send ok", "drop p1", "send ok", "conn", "send ok", "drop p2", "send ok"}}
 	out = append(out, fnp)
